@@ -117,6 +117,18 @@ structure Toggles where
       never cleaned — repairing it always re-executes it, so that the members of a former cycle are
       re-evaluated together instead of one of them being re-run against the others' stale defaults. -/
   f32 : Bool := false
+  /-- F1, proposed repair: a clean edge is trusted (`NoNeed`) only when the callee's firewall frontier
+      is settled in this epoch: the callee is an input / external, or a firewall verified in this
+      epoch without a pending backward projection, or every firewall of the callee's recorded
+      transitive-firewall-callee set is.  Otherwise the callee is repaired by ordinary recursion
+      (query callers only: no nested firewall repair, no backward projection, hence no new waiting). -/
+  f1p : Bool := false
+  /-- F1 (second half), proposed repair: when a query is cleaned and its transitive-firewall-callee
+      set is recomputed, the observations of its callees are refreshed with the callees' current
+      TFC fingerprints (the code keeps the fingerprints seen at the last execution, so a callee whose
+      set changes and later changes back to the originally observed one is not noticed: the caller
+      keeps the intermediate set — an ABA on the TFC fingerprint). -/
+  f1q : Bool := false
   /-- not a finding: the code walks transitive-firewall-callee sets and backward-projection sets in
       hash-set order; the model walks them in ascending key order, or descending with this switch -/
   desc : Bool := false
@@ -553,7 +565,20 @@ def checkCallee (t : Toggles) (p : Program) : Nat → Key → Kind → Key → L
   | 0, _, _, _, _, _ => throwE .outOfFuel
   | fuel + 1, k, kindK, callee, obs, pedantic => do
     let edgeDirty := (← get).dirty.contains (k, callee)
-    if !edgeDirty && !pedantic && kindK != .projection then return .noNeed
+    if !edgeDirty && !pedantic && kindK != .projection then
+      if !t.f1p then return .noNeed
+      let now := (← get).epoch
+      let kc0 ← storedKind callee
+      let frontier : List Key ← match kc0 with
+        | .input | .external => pure []
+        | .firewall => pure [callee]
+        | _ => do pure (← nodeInfoUnchecked callee).tfc
+      let mut trust := true
+      for f in frontier do
+        match (← getNode f) with
+        | some n => if !(n.lastVerified == now && n.pendingBP.isNone) then trust := false
+        | none => trust := false
+      if trust then return .noNeed
     let kc ← storedKind callee
     if kc != .input then
       match (← queryFor t p fuel callee (.query k false pedantic)) with
@@ -630,8 +655,15 @@ def repairQuery (t : Toggles) (p : Program) : Nat → Key → Caller → M Unit
             else
               let xn ← nodeInfoUnchecked x
               newTfc := unionSorted xn.tfc newTfc
+        let mut newObs := n.obs
+        if needTfc && t.f1q then
+          newObs := []
+          for (x, o) in n.obs do
+            match (← getNode x) with
+            | some xn => newObs := newObs ++ [(x, { o with tfc := xn.tfc })]
+            | none => newObs := newObs ++ [(x, o)]
         modify fun s => { s with dirty := cleaned.foldl (fun d c => removePair (k, c) d) s.dirty }
-        setNode k { n with tfc := newTfc, lastVerified := (← get).epoch }
+        setNode k { n with tfc := newTfc, obs := newObs, lastVerified := (← get).epoch }
         popComputing k
 
 /-- runs the executor of `owner` -/
